@@ -263,7 +263,9 @@ func runC04(c c04Case) (res c04Result) {
 		// known finding predicate: the only disagreements are the negotiated
 		// version and what follows from it, both versions in {1,2}, and the
 		// relay touched nothing but version bytes.
-		if c.Mitm.Kind == "version" && si.Version != sr.Version &&
+		// (XX only: with the two-act KK pattern the initiator's minimum is
+		// clamped to 2, so no version substitution may ever get through.)
+		if c.Mitm.Kind == "version" && c.Cfg.Pattern == "XX" && si.Version != sr.Version &&
 			(si.Version == 1 || si.Version == 2) && (sr.Version == 1 || sr.Version == 2) {
 			only := true
 			for _, d := range res.disagree {
